@@ -2694,6 +2694,15 @@ FROM (
         builder: SQLBuilder,
     ) -> str:
         """Join a CASE condition dataset and return the SQL condition expression."""
+        if self._condition_uses_whole_dataset(case_obj.condition):
+            # ``DS_1 > 3`` / ``isnull(DS_1)``: join the boolean dataset the condition evaluates to
+            expr_ds = self._get_dataset_structure(case_obj.condition)
+            if expr_ds is not None:
+                self._left_join_dataset(
+                    case_obj.condition, _DATASET, alias, source_ids, alias_src, builder
+                )
+                return f"{alias}.{quote_name(list(expr_ds.get_measures_names())[0])}"
+
         cond_source = self._find_condition_source(case_obj.condition)
         cond_ds = self._get_dataset_structure(cond_source) if cond_source else None
         if cond_source is not None:
